@@ -6,4 +6,11 @@ let table : (string * (Model.z list -> Model.z list)) list = [
   ("msg_dec", Model.run_msg_dec);
   ("frame_in", Model.run_frame_in);
   ("frame_dec", Model.run_frame_dec);
+  ("thrift_w", Model.run_thrift_w);
+  ("thrift_r", Model.run_thrift_r);
+  ("kviter", Model.run_kviter);
+  ("http_w", Model.run_http_w);
+  ("http_r", Model.run_http_r);
+  ("uvarint_w", Model.run_uvarint_w);
+  ("uvarint_r", Model.run_uvarint_r);
 ]
